@@ -2,7 +2,7 @@
 From Coq Require Import ZArith Bool List Lia.
 From Coq Require Import Strings.String Strings.Byte Floats.SpecFloat.
 From JaqV Require Import Base.F64 Base.Bytes Base.Stream Val.Num Val.Val Val.Utf8 Val.Err Val.Arith Val.Index
-  Core.Natives Json.Write Json.Read.
+  Core.Natives Json.Write Json.Read Std.Time.
 Import ListNotations.
 Local Open Scope Z_scope.
 
@@ -244,6 +244,31 @@ Definition std_run (fuel : nat) (name : bytes) (args : list narg) (v : val) : op
                         | None => SUnk
                         end
               | Err e => serr e
+              end)
+      else if name_is name "gmtime" then
+        Some (match v with
+              | Num n => match as_isize n with
+                         | Some t => match gmtime_int t with
+                                     | TOk l => sone (Arr (map vint l))
+                                     | _ => serr (EOther 5)
+                                     end
+                         | None => SUnk        (* fractional epochs: outside the model *)
+                         end
+              | _ => serr (ETyp v TNum)
+              end)
+      else if name_is name "mktime" then
+        Some (match v with
+              | Arr (Num y :: Num m :: Num d :: Num h :: Num mi :: Num s :: _) =>
+                  match as_isize y, as_isize m, as_isize d, as_isize h, as_isize mi, as_isize s with
+                  | Some y, Some m, Some d, Some h, Some mi, Some s =>
+                      match mktime_int y m d h mi s with
+                      | TOk t => sone (vint t)
+                      | _ => serr (EOther 6)
+                      end
+                  | _, _, _, _, _, _ => SUnk
+                  end
+              | Arr _ => SUnk
+              | _ => serr (ETyp v TArr)
               end)
       else if name_is name "ascii_downcase" then Some (of_res (rmap (fun b => TStr (ascii_map lower b)) (as_utf8_bytes v)))
       else if name_is name "ascii_upcase" then Some (of_res (rmap (fun b => TStr (ascii_map upper b)) (as_utf8_bytes v)))
